@@ -71,6 +71,8 @@ struct snapraid_handle* handle_mapping(struct snapraid_state* state, unsigned* h
 	*handlemax = ND;
 	return HMAP;
 }
+/* info_set() of elem.h grows the info array first: here it is preallocated for the one stripe (a body-less callee is rejected by the driver) */
+void tommy_arrayblkof_grow(tommy_arrayblkof* array, tommy_size_t size) { VF_ASSERT(size <= array->count, "harness: info array preallocated"); }
 void* memcpy(void* dst, const void* src, size_t n)
 {
 	if (n == 8) { *(uint64_t*)dst = *(const uint64_t*)src; }
